@@ -218,14 +218,19 @@ def is_dynamic_default(text, base):
     t = text
     if model.REF_RE.search(t):
         return True
+    if re.fullmatch(r"-?\d+(\.\d+)?", t):
+        return False  # a (negative) number literal
+    # ISO date / time / dateTime literals (with zone offsets) are literals whatever the question type
+    t = re.sub(r"-?\d{4}-\d{2}-\d{2}(T\d{2}:\d{2}:\d{2}(\.\d+)?(Z|[+-]\d{2}:\d{2})?)?", "D", t)
+    t = re.sub(r"\d{2}:\d{2}:\d{2}(\.\d+)?(Z|[+-]\d{2}:\d{2})?", "T", t)
     if re.search(r"[A-Za-z_][\w.\-]*\(", t):
         return True
     if "+" in t or "*" in t or "|" in t:
         return True
     if " div " in t or " mod " in t:
         return True
-    if re.search(r"[A-Za-z_][\w.\-]*\[", t):
-        return True
+    if "[" in t:
+        return None  # a predicate on its own (no call, reference or operator): boundary class
     if "-" in t:
         return None  # hyphen: number sign, date separator, name character or operator -- boundary class
     if any(ch in t for ch in "()[]{}"):
